@@ -1,4 +1,32 @@
 package checks
 
+import (
+	"fmt"
+
+	"verif/drive"
+)
+
 // Tools are auxiliary subcommands of vcheck (workers, replay helpers).
 var Tools = map[string]func(args []string) int{}
+
+func init() {
+	// transpile-one <file> <bash|batch>: one Transpile call in this process (used by the
+	// supervisor to isolate crashing inputs, and by replay scripts). Exit 0 = returned normally.
+	Tools["transpile-one"] = func(args []string) int {
+		t := drive.Bash
+		if len(args) > 1 && args[1] == "batch" {
+			t = drive.Batch
+		}
+		res := drive.TranspilePath(args[0], t)
+		switch {
+		case res.Panic != "":
+			fmt.Println("PANIC:", res.Panic)
+			return 3
+		case res.HasErr:
+			fmt.Println("ERROR:", res.Err)
+		default:
+			fmt.Print(res.Script)
+		}
+		return 0
+	}
+}
